@@ -1,6 +1,482 @@
-(* Proofs about Model/RtmpPacket.v (C03). *)
-From Verif Require Import Lib.Base Lib.Sx Model.Amf0 Model.RtmpPacket.
+(* Proofs about the packet codecs of Model/RtmpPacket.v (C03): exact size, round trip, totality.
+   The AMF0 facts come from Proofs/Amf0.v (C05). *)
+From Verif Require Import Lib.Base Lib.Sx Model.Amf0 Proofs.Amf0 Model.RtmpPacket.
 Open Scope N_scope.
 
-Lemma marshal_set_chunk_size_len n : length (marshal (PSetChunkSize n)) = 4%nat.
+(* ------------------------------------------------------------------ small facts *)
+Lemma bytes_eqb_refl a : bytes_eqb a a = true.
+Proof. induction a as [|x a IH]; cbn; [reflexivity|]. rewrite N.eqb_refl. exact IH. Qed.
+
+Lemma bytes_eqb_eq a : forall b, bytes_eqb a b = true <-> a = b.
+Proof.
+  induction a as [|x a IH]; intros [|y b]; cbn; split; intros H; try reflexivity; try discriminate.
+  - apply andb_true_iff in H. destruct H as [H1 H2]. apply N.eqb_eq in H1. apply IH in H2. congruence.
+  - inversion H; subst. rewrite N.eqb_refl. apply bytes_eqb_refl.
+Qed.
+
+Lemma bytes_eqb_neq a b : bytes_eqb a b = false <-> a <> b.
+Proof.
+  split; intros H.
+  - intros E. apply bytes_eqb_eq in E. congruence.
+  - destruct (bytes_eqb a b) eqn:E; [|reflexivity]. apply bytes_eqb_eq in E. contradiction.
+Qed.
+
+Lemma enc_cons v : exists m r, enc v = m :: r.
+Proof. destruct v; cbn [enc]; eauto. Qed.
+
+Lemma is_nil_enc_app v r : is_nil (enc v ++ r) = false.
+Proof. destruct (enc_cons v) as (m & r' & ->). reflexivity. Qed.
+
+Lemma is_nil_true {A} (l : list A) : is_nil l = true -> l = [].
+Proof. destruct l; [reflexivity|discriminate]. Qed.
+
+Lemma step_ok {A} (a : A) c : step (Ok a) c = Ok a.
 Proof. reflexivity. Qed.
+
+Lemma step_not_panic {A} (r : res A) c s : (forall s', r <> Panic s') -> step r c <> Panic s.
+Proof. intros H. destruct r; cbn; try discriminate. exfalso. exact (H _ eq_refl). Qed.
+
+Lemma drop_app (a r : bytes) n site : n = lenN a -> drop n (a ++ r) site = Ok r.
+Proof. intros ->. unfold drop. rewrite (takeN_app a r (lenN a) eq_refl). reflexivity. Qed.
+
+Lemma drop_split n p site : (exists w rest, p = w ++ rest /\ lenN w = n) ->
+  exists w rest, p = w ++ rest /\ lenN w = n /\ drop n p site = Ok rest.
+Proof.
+  intros (w & rest & -> & Hl). exists w, rest. repeat split; [exact Hl|].
+  apply drop_app. symmetry. exact Hl.
+Qed.
+
+Lemma size_str_pos s : size (AStr s) = 3 + lenN s.
+Proof. cbn [size]. unfold utf8_size. lia. Qed.
+
+Lemma lenN_be2 n : lenN (be2 n) = 2.
+Proof. reflexivity. Qed.
+Lemma lenN_be4 n : lenN (be4 n) = 4.
+Proof. reflexivity. Qed.
+
+(* ------------------------------------------------------------------ c03_size *)
+Lemma lenN_enc_opt o : lenN (enc_opt o) = size_opt o.
+Proof. destruct o; cbn [enc_opt size_opt]; [apply amf0_size_enc|reflexivity]. Qed.
+Lemma lenN_enc_oprops o : lenN (enc_oprops o) = size_oprops o.
+Proof. destruct o; cbn [enc_oprops size_oprops]; [apply amf0_size_enc|reflexivity]. Qed.
+Lemma lenN_enc_hdr n t : lenN (enc_hdr n t) = hsize n.
+Proof. unfold enc_hdr, hsize. rewrite lenN_app, !amf0_size_enc. reflexivity. Qed.
+Lemma lenN_enc_variant n t o : lenN (enc_variant n t o) = vsize n o.
+Proof. unfold enc_variant, vsize. rewrite lenN_app, lenN_enc_hdr, lenN_enc_opt. reflexivity. Qed.
+
+(* every packet, all field values: MarshalBinary yields exactly Size() bytes *)
+Theorem marshal_size p : lenN (marshal p) = psize p.
+Proof.
+  destruct p; cbn [marshal psize];
+    rewrite ?lenN_app, ?lenN_enc_variant, ?lenN_enc_hdr, ?lenN_enc_opt, ?lenN_enc_oprops, ?amf0_size_enc;
+    try reflexivity; try lia.
+  - (* user control *)
+    unfold uc_size. destruct (et =? etFmsEvent0), (et =? etSetBufferLength); reflexivity.
+Qed.
+
+(* ------------------------------------------------------------------ round trip: headers *)
+Lemma um_hdr_enc name tid rest :
+  wf_strb name = true -> tid < 18446744073709551616 ->
+  um_hdr (enc_hdr name tid ++ rest) = Ok (name, tid, rest).
+Proof.
+  intros Hn Ht. unfold um_hdr, enc_hdr. rewrite <- !app_assoc.
+  rewrite um_string_enc by exact Hn. rewrite step_ok. cbn [bind].
+  rewrite drop_app by (symmetry; apply amf0_size_enc). cbn [bind].
+  rewrite um_number_enc by exact Ht. rewrite step_ok. cbn [bind].
+  rewrite drop_app by (symmetry; apply amf0_size_enc). cbn [bind].
+  reflexivity.
+Qed.
+
+Lemma decode_enc v rest : wf_amf v -> decode (enc v ++ rest) = Ok (v, size v).
+Proof.
+  intros Hv. unfold decode, dec_fuel. apply amf0_dec_enc; [exact Hv|].
+  rewrite app_length. lia.
+Qed.
+
+Lemma um_object_enc_fuel ps rest : wf_propsb ps = true ->
+  um_object (dec_fuel (enc (AObj ps) ++ rest)) (enc (AObj ps) ++ rest) = Ok (AObj ps, size (AObj ps)).
+Proof.
+  intros Hp. apply um_object_enc.
+  - unfold wf_amf. rewrite wf_obj. exact Hp.
+  - unfold dec_fuel. rewrite app_length. lia.
+Qed.
+
+Lemma um_variant_some name tid v rest :
+  wf_strb name = true -> tid < 18446744073709551616 -> wf_amf v ->
+  um_variant (enc_variant name tid (Some v) ++ rest) = Ok (name, tid, Some v).
+Proof.
+  intros Hn Ht Hv. unfold um_variant, enc_variant. cbn [enc_opt]. rewrite <- !app_assoc.
+  rewrite um_hdr_enc by assumption. cbn [bind].
+  rewrite is_nil_enc_app. rewrite decode_enc by exact Hv. rewrite step_ok. cbn [bind].
+  rewrite drop_app by (symmetry; apply amf0_size_enc). cbn [bind]. reflexivity.
+Qed.
+
+Lemma um_variant_none name tid :
+  wf_strb name = true -> tid < 18446744073709551616 ->
+  um_variant (enc_variant name tid None) = Ok (name, tid, None).
+Proof.
+  intros Hn Ht. unfold um_variant, enc_variant. cbn [enc_opt].
+  rewrite um_hdr_enc by assumption. cbn [bind]. reflexivity.
+Qed.
+
+Lemma after_variant_some name tid v rest :
+  wf_strb name = true -> tid < 18446744073709551616 -> wf_amf v ->
+  after_variant (enc_variant name tid (Some v) ++ rest) = Ok (name, tid, Some v, rest).
+Proof.
+  intros Hn Ht Hv. unfold after_variant. rewrite um_variant_some by assumption. cbn [bind].
+  rewrite drop_app by (symmetry; apply lenN_enc_variant). reflexivity.
+Qed.
+
+Lemma after_variant_none name tid :
+  wf_strb name = true -> tid < 18446744073709551616 ->
+  after_variant (enc_variant name tid None) = Ok (name, tid, None, []).
+Proof.
+  intros Hn Ht. unfold after_variant. rewrite um_variant_none by assumption. cbn [bind].
+  rewrite <- (app_nil_r (enc_variant name tid None)) at 1.
+  rewrite drop_app by (symmetry; apply lenN_enc_variant). reflexivity.
+Qed.
+
+Lemma um_objcall_enc a0 name tid o a :
+  wf_strb name = true -> tid < 18446744073709551616 -> wf_propsb o = true -> wf_oprops a = true ->
+  um_objcall a0 (enc_hdr name tid ++ enc (AObj o) ++ enc_oprops a)
+  = Ok (name, tid, o, match a with Some x => Some x | None => a0 end).
+Proof.
+  intros Hn Ht Ho Ha. unfold um_objcall. rewrite um_hdr_enc by assumption. cbn [bind].
+  rewrite um_object_enc_fuel by exact Ho. rewrite step_ok. cbn [bind].
+  rewrite drop_app by (symmetry; apply amf0_size_enc). cbn [bind].
+  destruct a as [ps|]; cbn [enc_oprops].
+  - rewrite <- (app_nil_r (enc (AObj ps))). rewrite is_nil_enc_app.
+    cbn [wf_oprops] in Ha. rewrite um_object_enc_fuel by exact Ha. rewrite step_ok. cbn [bind].
+    reflexivity.
+  - reflexivity.
+Qed.
+
+(* ------------------------------------------------------------------ c03_roundtrip *)
+Lemma N_ltb_lt a b : (a <? b) = true -> a < b.
+Proof. apply N.ltb_lt. Qed.
+
+Ltac split_wf H :=
+  repeat match type of H with
+         | (_ && _) = true => let H1 := fresh "W" in let H2 := fresh "W" in
+                               apply andb_true_iff in H; destruct H as [H1 H2]; try split_wf H1; try split_wf H2
+         end.
+
+Lemma wf_opt_some v : wf_opt (Some v) = true -> wf_amf v.
+Proof. intros H. exact H. Qed.
+
+Lemma ube4_of_be4 n : n < 4294967296 ->
+  ube4 ((n / 16777216) mod 256) ((n / 65536) mod 256) ((n / 256) mod 256) (n mod 256) = n.
+Proof. exact (ube4_be4 n). Qed.
+
+Lemma wf_str_of_eq n c : bytes_eqb n c = true -> wf_strb c = true -> wf_strb n = true.
+Proof. intros E. apply bytes_eqb_eq in E. subst. auto. Qed.
+
+Theorem unmarshal_marshal p : wf_pkt p = true -> unmarshal (receiver_for p) (marshal p) = Ok p.
+Proof.
+  destruct p; cbn [wf_pkt]; intros H; rewrite ?andb_true_iff in H; cbn [receiver_for marshal].
+  - (* connect *)
+    destruct H as [[[Hn Ht] Ho] Ha].
+    apply bytes_eqb_eq in Hn. apply N.eqb_eq in Ht. subst name tid.
+    unfold new_connect. cbn [unmarshal].
+    rewrite um_objcall_enc; [|reflexivity|reflexivity|exact Ho|exact Ha]. cbn [bind].
+    rewrite bytes_eqb_refl. cbn [negb]. change (f_eq f_one f_one) with true. cbn [negb].
+    destruct args; reflexivity.
+  - (* connect response *)
+    destruct H as [[[Hn Ht] Ho] Ha].
+    apply bytes_eqb_eq in Hn. subst name. apply N.ltb_lt in Ht.
+    unfold new_connect_res. cbn [unmarshal].
+    rewrite um_objcall_enc; [|reflexivity|exact Ht|exact Ho|exact Ha]. cbn [bind].
+    rewrite bytes_eqb_refl. cbn [negb]. destruct args; reflexivity.
+  - (* call *)
+    destruct H as [[[[Hn Ht] Ho] Ha] Hs].
+    apply N.ltb_lt in Ht. unfold new_call. cbn [unmarshal].
+    destruct obj as [o|].
+    + destruct args as [a|]; cbn [enc_opt].
+      * rewrite after_variant_some; [|exact Hn|exact Ht|exact Ho]. cbn [bind].
+        rewrite <- (app_nil_r (enc a)). rewrite is_nil_enc_app.
+        rewrite decode_enc by exact Ha. rewrite step_ok. reflexivity.
+      * rewrite after_variant_some; [|exact Hn|exact Ht|exact Ho]. reflexivity.
+    + destruct args as [a|]; [discriminate|]. cbn [enc_opt]. rewrite app_nil_r.
+      rewrite after_variant_none; [|exact Hn|exact Ht]. reflexivity.
+  - (* createStream *)
+    destruct H as [[[Hn Ht] Ho] Hs].
+    apply N.ltb_lt in Ht. destruct obj as [o|]; [|discriminate].
+    unfold new_create_stream. cbn [unmarshal].
+    rewrite <- (app_nil_r (enc_variant name tid (Some o))).
+    rewrite um_variant_some; [|exact Hn|exact Ht|exact Ho]. reflexivity.
+  - (* createStream response *)
+    destruct H as [[[[Hn Ht] Ho] Hs] Hsid].
+    apply N.ltb_lt in Ht. apply N.ltb_lt in Hsid. destruct obj as [o|]; [|discriminate].
+    unfold new_create_stream_res. cbn [unmarshal].
+    rewrite after_variant_some; [|exact Hn|exact Ht|exact Ho]. cbn [bind].
+    rewrite <- (app_nil_r (enc (ANum sid))). rewrite um_number_enc by exact Hsid. reflexivity.
+  - (* publish *)
+    destruct H as [[[[[Hn Ht] Ho] Hs] Hsn] Hst].
+    apply N.ltb_lt in Ht. destruct obj as [o|]; [|discriminate].
+    unfold new_publish. cbn [unmarshal].
+    rewrite after_variant_some; [|exact Hn|exact Ht|exact Ho]. cbn [bind].
+    rewrite um_string_enc by exact Hsn. rewrite step_ok. cbn [bind].
+    rewrite drop_app by (symmetry; apply amf0_size_enc). cbn [bind].
+    rewrite <- (app_nil_r (enc (AStr stype))). rewrite um_string_enc by exact Hst. reflexivity.
+  - (* play *)
+    destruct H as [[[[Hn Ht] Ho] Hs] Hsn].
+    apply N.ltb_lt in Ht. destruct obj as [o|]; [|discriminate].
+    unfold new_play. cbn [unmarshal].
+    rewrite after_variant_some; [|exact Hn|exact Ht|exact Ho]. cbn [bind].
+    rewrite <- (app_nil_r (enc (AStr sname))). rewrite um_string_enc by exact Hsn. rewrite step_ok. cbn [bind].
+    rewrite drop_app by (symmetry; apply amf0_size_enc).
+    reflexivity.
+  - (* set chunk size *)
+    apply N.ltb_lt in H. unfold new_set_chunk_size. cbn [unmarshal be4 um_control4 bind].
+    rewrite ube4_of_be4 by exact H. reflexivity.
+  - apply N.ltb_lt in H. unfold new_win_ack. cbn [unmarshal be4 um_control4 bind].
+    rewrite ube4_of_be4 by exact H. reflexivity.
+  - destruct H as [Hn Hl]. apply N.ltb_lt in Hn. unfold new_set_peer_bw. cbn [unmarshal be4 app].
+    rewrite ube4_of_be4 by exact Hn. reflexivity.
+  - (* user control *)
+    destruct H as [[He Hd] Hx].
+    apply N.ltb_lt in He. unfold new_user_control. cbn [unmarshal be2 app].
+    assert (Het : ube2 ((et / 256) mod 256) (et mod 256) = et) by (apply ube2_be2; exact He).
+    rewrite Het. unfold uc_size.
+    destruct (et =? etFmsEvent0) eqn:E1; destruct (et =? etSetBufferLength) eqn:E2.
+    + apply N.eqb_eq in E1. apply N.eqb_eq in E2. rewrite E1 in E2. discriminate.
+    + apply N.ltb_lt in Hd. apply N.eqb_eq in Hx. subst x. cbn.
+      rewrite N.mod_small by lia. reflexivity.
+    + apply N.ltb_lt in Hd. apply N.ltb_lt in Hx. cbn.
+      rewrite !ube4_of_be4 by assumption. reflexivity.
+    + apply N.ltb_lt in Hd. apply N.eqb_eq in Hx. subst x. cbn.
+      rewrite ube4_of_be4 by assumption. reflexivity.
+Qed.
+
+(* the decoded packet re-marshals to the same bytes and reports the same size *)
+Corollary remarshal p q : wf_pkt p = true -> unmarshal (receiver_for p) (marshal p) = Ok q ->
+  marshal q = marshal p /\ psize q = psize p.
+Proof. intros Hwf H. rewrite unmarshal_marshal in H by exact Hwf. inversion H. subst. auto. Qed.
+
+(* ------------------------------------------------------------------ totality: no Panic *)
+Definition np {A} (r : res A) : Prop := forall s, r <> Panic s.
+
+Lemma np_ok {A} (a : A) : np (Ok a).
+Proof. intros s; discriminate. Qed.
+Lemma np_err {A} e : np (@Err A e).
+Proof. intros s; discriminate. Qed.
+Lemma np_step {A} (r : res A) c : np r -> np (step r c).
+Proof. intros H s. destruct r; cbn; try discriminate. exfalso. exact (H _ eq_refl). Qed.
+Lemma np_bind {A B} (r : res A) (f : A -> res B) :
+  np r -> (forall a, r = Ok a -> np (f a)) -> np (bind r f).
+Proof. intros Hr Hf s. destruct r; cbn [bind]; [apply Hf; reflexivity|discriminate|]. exfalso. exact (Hr _ eq_refl). Qed.
+Lemma step_ok_inv {A} (r : res A) c a : step r c = Ok a -> r = Ok a.
+Proof. destruct r; cbn; intros H; try discriminate; exact H. Qed.
+
+Lemma um_string_shape p v n : um_string p = Ok (v, n) -> exists s, v = AStr s.
+Proof.
+  unfold um_string. destruct p as [|m r]; [discriminate|].
+  destruct (negb (m =? mString)); [discriminate|].
+  destruct (um_utf8 r) as [[s r']|e|s']; cbn [bind]; try discriminate.
+  intros H. inversion H. eauto.
+Qed.
+
+Lemma um_number_shape p v n : um_number p = Ok (v, n) -> exists b, v = ANum b.
+Proof.
+  unfold um_number.
+  destruct p as [|m [|a [|b [|c [|d [|e [|f [|g [|h rest]]]]]]]]]; try discriminate.
+  destruct (negb (m =? mNumber)); [discriminate|]. intros H. inversion H. eauto.
+Qed.
+
+Lemma drop_ok_of_consumed n p site :
+  (exists w rest, p = w ++ rest /\ lenN w = n) -> exists rest, drop n p site = Ok rest.
+Proof. intros H. destruct (drop_split n p site H) as (w & rest & _ & _ & E). eauto. Qed.
+
+Lemma um_hdr_ok p name tid p2 : um_hdr p = Ok (name, tid, p2) ->
+  exists w, p = w ++ p2 /\ lenN w = hsize name.
+Proof.
+  unfold um_hdr.
+  destruct (um_string p) as [[v n]|e|s] eqn:Es; cbn [step bind]; try discriminate.
+  destruct (um_string_consumed _ _ _ Es) as (Hn & w & rest & -> & Hl).
+  rewrite drop_app by (symmetry; exact Hl). cbn [bind].
+  destruct (um_number rest) as [[t n2]|e|s] eqn:En; cbn [step bind]; try discriminate.
+  destruct (um_number_consumed _ _ _ En) as (Hn2 & w2 & rest2 & -> & Hl2).
+  rewrite drop_app by (symmetry; exact Hl2). cbn [bind].
+  intros H. inversion H; subst name tid p2.
+  destruct (um_string_shape _ _ _ Es) as (s & ->). destruct (um_number_shape _ _ _ En) as (b & ->).
+  exists (w ++ w2). split; [rewrite app_assoc; reflexivity|].
+  rewrite lenN_app, Hl, Hl2. subst n n2. reflexivity.
+Qed.
+
+Lemma um_hdr_total p : np (um_hdr p).
+Proof.
+  unfold um_hdr. apply np_bind; [apply np_step; intros s; apply um_string_total|].
+  intros [v n] Es. apply step_ok_inv in Es.
+  destruct (um_string_consumed _ _ _ Es) as (Hn & w & rest & -> & Hl).
+  rewrite drop_app by (symmetry; exact Hl). cbn [bind].
+  apply np_bind; [apply np_step; intros s; apply um_number_total|].
+  intros [t n2] En. apply step_ok_inv in En.
+  destruct (um_number_consumed _ _ _ En) as (Hn2 & w2 & rest2 & -> & Hl2).
+  rewrite drop_app by (symmetry; exact Hl2). cbn [bind]. apply np_ok.
+Qed.
+
+Lemma decode_total p : np (decode p).
+Proof. intros s. apply amf0_dec_total'. Qed.
+
+Lemma um_variant_ok data name tid o : um_variant data = Ok (name, tid, o) ->
+  exists w rest, data = w ++ rest /\ lenN w = vsize name o.
+Proof.
+  unfold um_variant.
+  destruct (um_hdr data) as [[[nm t] p2]|e|s] eqn:Eh; cbn [bind]; try discriminate.
+  destruct (um_hdr_ok _ _ _ _ Eh) as (w & -> & Hl).
+  destruct (is_nil p2) eqn:En.
+  - intros H. inversion H; subst. exists w, p2. split; [reflexivity|].
+    unfold vsize. cbn [size_opt]. lia.
+  - destruct (decode p2) as [[ov n]|e|s] eqn:Ed; cbn [step bind]; try discriminate.
+    destruct (amf0_dec_consumed _ _ _ _ Ed) as (Hn & w2 & rest2 & -> & Hl2).
+    rewrite drop_app by (symmetry; exact Hl2). cbn [bind].
+    intros H. inversion H; subst. exists (w ++ w2), rest2. split; [rewrite app_assoc; reflexivity|].
+    unfold vsize. cbn [size_opt]. rewrite lenN_app, Hl, Hl2. reflexivity.
+Qed.
+
+Lemma um_variant_total data : np (um_variant data).
+Proof.
+  unfold um_variant. apply np_bind; [apply um_hdr_total|].
+  intros [[nm t] p2] Eh. destruct (is_nil p2); [apply np_ok|].
+  apply np_bind; [apply np_step, decode_total|].
+  intros [ov n] Ed. apply step_ok_inv in Ed.
+  destruct (amf0_dec_consumed _ _ _ _ Ed) as (Hn & w2 & rest2 & -> & Hl2).
+  rewrite drop_app by (symmetry; exact Hl2). cbn [bind]. apply np_ok.
+Qed.
+
+(* the callers' p[v.variantCallPacket.Size():] is always in range (after 9789218) *)
+Lemma after_variant_total data : np (after_variant data).
+Proof.
+  unfold after_variant. apply np_bind; [apply um_variant_total|].
+  intros [[nm t] o] Ev. destruct (um_variant_ok _ _ _ _ Ev) as (w & rest & -> & Hl).
+  rewrite drop_app by (symmetry; exact Hl). cbn [bind]. apply np_ok.
+Qed.
+
+Lemma um_objcall_total a0 data : np (um_objcall a0 data).
+Proof.
+  unfold um_objcall. apply np_bind; [apply um_hdr_total|].
+  intros [[nm t] p2] Eh.
+  apply np_bind; [apply np_step; intros s; apply um_object_total|].
+  intros [o n] Eo. apply step_ok_inv in Eo.
+  destruct (um_object_consumed _ _ _ _ Eo) as (Hn & w & rest & -> & Hl).
+  rewrite drop_app by (symmetry; exact Hl). cbn [bind].
+  destruct (is_nil rest); [apply np_ok|].
+  apply np_bind; [apply np_step; intros s; apply um_object_total|].
+  intros [a n2] _. apply np_ok.
+Qed.
+
+Lemma lenN_ge1 (b : bytes) : 1 <= lenN b -> exists c r, b = c :: r.
+Proof. destruct b; [cbn; lia|eauto]. Qed.
+Lemma lenN_ge4 (b : bytes) : 4 <= lenN b -> exists c d e f r, b = c :: d :: e :: f :: r.
+Proof.
+  rewrite lenN_length. destruct b as [|c [|d [|e [|f r]]]]; cbn [length]; try lia. eauto 6.
+Qed.
+Lemma lenN_ge8 (b : bytes) : 8 <= lenN b ->
+  exists c d e f c' d' e' f' r, b = c :: d :: e :: f :: c' :: d' :: e' :: f' :: r.
+Proof.
+  rewrite lenN_length.
+  destruct b as [|c [|d [|e [|f [|c' [|d' [|e' [|f' r]]]]]]]]; cbn [length]; try lia. eauto 10.
+Qed.
+
+Lemma um_user_control_total x0 data : np (unmarshal (PUserControl 0 0 x0) data).
+Proof.
+  cbn [unmarshal]. destruct data as [|a [|b body]]; try apply np_err.
+  destruct (is_nil body) eqn:Eb; [apply np_err|].
+  destruct (lenN (a :: b :: body) <? uc_size (ube2 a b)) eqn:El; [apply np_err|].
+  apply N.ltb_ge in El. rewrite !lenN_cons in El. unfold uc_size in El.
+  destruct (ube2 a b =? etFmsEvent0) eqn:E1.
+  - destruct body as [|c r]; [discriminate|]. cbn [bind].
+    destruct (ube2 a b =? etSetBufferLength) eqn:E2; cbn [bind]; [|apply np_ok].
+    apply N.eqb_eq in E1. apply N.eqb_eq in E2. rewrite E1 in E2. discriminate.
+  - destruct (ube2 a b =? etSetBufferLength) eqn:E2.
+    + destruct (lenN_ge8 body) as (c1 & d1 & e1 & f1 & c2 & d2 & e2 & f2 & r' & E); [lia|].
+      rewrite E. cbn [bind]. apply np_ok.
+    + destruct (lenN_ge4 body) as (c1 & d1 & e1 & f1 & r' & E); [lia|].
+      rewrite E. cbn [bind]. apply np_ok.
+Qed.
+
+(* every packet unmarshaler, any receiver, any input: never a Panic *)
+Theorem unmarshal_total r data : np (unmarshal r data).
+Proof.
+  destruct r; cbn [unmarshal].
+  - apply np_bind; [apply um_objcall_total|]. intros [[[nm t] o] a] _.
+    destruct (negb (bytes_eqb nm cConnect)); [apply np_err|].
+    destruct (negb (f_eq t f_one)); [apply np_err|apply np_ok].
+  - apply np_bind; [apply um_objcall_total|]. intros [[[nm t] o] a] _.
+    destruct (negb (bytes_eqb nm cResult)); [apply np_err|apply np_ok].
+  - apply np_bind; [apply after_variant_total|]. intros [[[nm t] o] p] _.
+    destruct (is_nil p); [apply np_ok|].
+    apply np_bind; [apply np_step, decode_total|]. intros [a n] _. apply np_ok.
+  - apply np_bind; [apply um_variant_total|]. intros [[nm t] o] _. apply np_ok.
+  - apply np_bind; [apply after_variant_total|]. intros [[[nm t] o] p] _.
+    apply np_bind; [apply np_step; intros s; apply um_number_total|]. intros [sv n] _. apply np_ok.
+  - apply np_bind; [apply after_variant_total|]. intros [[[nm t] o] p] _.
+    apply np_bind; [apply np_step; intros s; apply um_string_total|].
+    intros [sn n] Es. apply step_ok_inv in Es.
+    destruct (um_string_consumed _ _ _ Es) as (Hn & w & rest & -> & Hl).
+    rewrite drop_app by (symmetry; exact Hl). cbn [bind].
+    apply np_bind; [apply np_step; intros s; apply um_string_total|]. intros [st n2] _. apply np_ok.
+  - apply np_bind; [apply after_variant_total|]. intros [[[nm t] o] p] _.
+    apply np_bind; [apply np_step; intros s; apply um_string_total|].
+    intros [sn n] Es. apply step_ok_inv in Es.
+    destruct (um_string_consumed _ _ _ Es) as (Hn & w & rest & -> & Hl).
+    rewrite drop_app by (symmetry; exact Hl). cbn [bind]. apply np_ok.
+  - unfold um_control4. destruct data as [|a [|b [|c [|d r]]]]; cbn [bind]; try apply np_err; apply np_ok.
+  - unfold um_control4. destruct data as [|a [|b [|c [|d r]]]]; cbn [bind]; try apply np_err; apply np_ok.
+  - destruct data as [|a [|b [|c [|d [|e r]]]]]; try apply np_err; apply np_ok.
+  - exact (um_user_control_total x data).
+Qed.
+
+Lemma parse_amf_object_total t p : np (fst (parse_amf_object t p)).
+Proof.
+  unfold parse_amf_object.
+  destruct (um_string p) as [[v n]|e|s] eqn:Es; cbn [step fst].
+  - destruct (bytes_eqb (amf_str v) cResult || bytes_eqb (amf_str v) cError).
+    + destruct (um_string_consumed _ _ _ Es) as (Hn & w & rest & -> & Hl).
+      rewrite drop_app by (symmetry; exact Hl).
+      destruct (um_number rest) as [[tv n2]|e|s] eqn:En; cbn [step fst].
+      * destruct (tx_get t (amf_num tv)); cbn [fst]; [|apply np_err].
+        destruct (bytes_eqb b cConnect); cbn [fst]; [apply np_ok|].
+        destruct (bytes_eqb b cCreateStream); cbn [fst]; [apply np_ok|apply np_err].
+      * apply np_err.
+      * exfalso. exact (um_number_total _ _ En).
+    + destruct (bytes_eqb (amf_str v) cConnect); [apply np_ok|].
+      destruct (bytes_eqb (amf_str v) cCreateStream); [apply np_ok|].
+      destruct (bytes_eqb (amf_str v) cPlay); [apply np_ok|].
+      destruct (bytes_eqb (amf_str v) cPublish); apply np_ok.
+  - apply np_err.
+  - exfalso. exact (um_string_total _ _ Es).
+Qed.
+
+(* DecodeMessage: any table, any message type, any payload: never a Panic *)
+Theorem decode_message_total t mt payload : np (fst (decode_message t mt payload)).
+Proof.
+  unfold decode_message. destruct payload as [|x tl]; [apply np_err|].
+  set (p := if (mt =? mtAMF3Command) || (mt =? mtAMF3Data) then tl else x :: tl).
+  destruct (mt =? mtSetChunkSize); [apply unmarshal_total|].
+  destruct (mt =? mtWinAck); [apply unmarshal_total|].
+  destruct (mt =? mtSetPeerBw); [apply unmarshal_total|].
+  destruct (is_amf_type mt).
+  - pose proof (parse_amf_object_total t p) as Hp.
+    destruct (parse_amf_object t p) as [[r|e|s] t']; cbn [fst] in *;
+      [apply unmarshal_total|apply np_err|exact Hp].
+  - destruct (mt =? mtUserControl); [apply unmarshal_total|apply np_err].
+Qed.
+
+Lemma expect_packet_total want : forall ms t i, np (fst (expect_packet want t ms i)).
+Proof.
+  induction ms as [|m ms IH]; intros t i; cbn [expect_packet]; [apply np_err|].
+  destruct (negb (arrive_ok m)); [apply np_err|].
+  pose proof (decode_message_total t (fst m) (snd m)) as Hd.
+  destruct (decode_message t (fst m) (snd m)) as [[p|e|s] t']; cbn [fst] in *.
+  - destruct (want p); [apply np_ok|apply IH].
+  - apply np_err.
+  - intros s'. exfalso. exact (Hd s eq_refl).
+Qed.
+
+Lemma expect_message_total types : forall ms i, np (expect_message types ms i).
+Proof.
+  induction ms as [|m ms IH]; intros i; cbn [expect_message]; [apply np_err|].
+  destruct (negb (arrive_ok m)); [apply np_err|].
+  destruct (is_nil types || existsb (N.eqb (fst m)) types); [apply np_ok|apply IH].
+Qed.
